@@ -639,6 +639,14 @@ def gen_cases(pid, tier, seed):
             for k in (0, 3):
                 cases.append({"features": sorted(["posonly_then_kwonly_params"] + extra), "traced": ["f3", "f1"],
                               "types": {"f3": ["circle", "square"], "f1": ["int"]}, "overwrite": False, "confine": conf, "k": k, "via_cli": True})
+    # (found by the seed sweep: here the SECOND application fails - the failing command has read the file and must not have touched it)
+    for conf in confs:
+        for k in (0, 3):
+            cases.append({"features": ["comments", "existing_tc_block", "exotic_separators", "fallback_import_in_try", "from_import_sibling_name",
+                                       "future_import", "import_in_function", "partial_annotations", "posonly_then_kwonly_params",
+                                       "reexport_alias_import", "relative_import", "star_import", "tc_import_in_try", "typing_import"],
+                          "traced": ["f1", "K.s", "f3", "f2", "K.m"], "overwrite": False, "confine": conf, "k": k, "via_cli": True,
+                          "types": {"K.m": ["list", "none"], "K.s": ["circle", "int"], "f1": ["dictcls"], "f2": ["tm", "int"], "f3": ["str", "circle", "none"]}})
     plan.append({"family": "applications libcst gives up on, through the `apply` command (the file must be left alone)", "cases": len(cases) - n0})
     # the ONLY generated class is a TypedDict whose keys are all optional (its base class is needed when the module is imported)
     n0 = len(cases)
